@@ -837,12 +837,26 @@ example : ((goPlan E0 "lastIndexOf").run ⟨.prim (.str []), [.prim (.str [0x78]
 example : (goPlan E0 "slice").run ⟨.prim (.str sABC), [oN 1, oN 2]⟩ = ([1, 2], .str [0x62]) ∧
     (goPlan E0 "slice").run ⟨.prim (.str sABC), [.obj [.throw], oN 2]⟩ = ([1], .throwScript) := by decide
 
--- primitive_this_boxed: String.prototype.toString = function(){return "zzz"}; "abc".charAt(0)
-example : (memberThisOverridden E0 sZZZ (.val (.str sABC))).map (fun rm => charAt E0 rm [num 0]) = some (.str [122]) ∧
+-- primitive_this_boxed (repaired by fc1155e): with String.prototype.toString replaced, "abc".charAt(0) is "a" on both sides,
+-- and a String object receiver is converted through the replaced toString on both sides
+example : (memberThisOverridden sZZZ (.val (.str sABC))).map (fun rm => charAt E0 rm [num 0]) = some (.str [0x61]) ∧
     Spec.charAt E0 (Spec.thisOverridden sZZZ (.val (.str sABC))) [num 0] = .str [0x61] := by decide
--- … a String object receiver is converted through the replaced toString on both sides
-example : (memberThisOverridden E0 sZZZ (.strObj sABC)).map (fun rm => charAt E0 rm [num 0]) = some (.str [122]) ∧
+example : (memberThisOverridden sZZZ (.strObj sABC)).map (fun rm => charAt E0 rm [num 0]) = some (.str [122]) ∧
     Spec.charAt E0 (Spec.thisOverridden sZZZ (.strObj sABC)) [num 0] = .str [122] := by decide
+
+/-- C09.this_of_member_call: with or without a replaced String.prototype.toString, the `this` a method call hands to a
+    built-in is the one ES5 §11.2.3 / §8.7 prescribes (a primitive stays the primitive, a String object is
+    converted by its toString), for every receiver that is not undefined or null -/
+theorem this_of_member_call (t : List Nat) (r : Recv) (h : coercible r = true) :
+    memberThisOverridden t r = some (Spec.thisOverridden t r) ∧ (∀ s, r ≠ .strObj s → memberCallThis r = some r) := by
+  refine ⟨?_, ?_⟩
+  · cases r with
+    | val v => cases v <;> simp_all [memberThisOverridden, memberCallThis, Spec.thisOverridden, coercible]
+    | _ => simp [memberThisOverridden, memberCallThis, Spec.thisOverridden]
+  · intro s _
+    cases r with
+    | val v => cases v <;> simp_all [memberCallThis, coercible]
+    | _ => simp [memberCallThis]
 
 /-! ## Non-vacuity of the side conditions -/
 example : NoLone (.strObj sAXB) ∧ NoLone (.val16 [0xD835, 0xDCB3]) ∧ SmallInt (num 2) ∧ SmallInt (.int .i64 7) ∧ ¬ NoLone (.val16 [0xD800]) := by
